@@ -78,7 +78,8 @@ func (p *parser) parseSchemaDocument() *SchemaDocument {
 		}
 
 		var description descriptionWithComment
-		if p.peek().Kind == lexer.BlockString || p.peek().Kind == lexer.String {
+		hasDescription := p.peek().Kind == lexer.BlockString || p.peek().Kind == lexer.String
+		if hasDescription {
 			description = p.parseDescription()
 		}
 
@@ -95,7 +96,7 @@ func (p *parser) parseSchemaDocument() *SchemaDocument {
 		case "directive":
 			doc.Directives = append(doc.Directives, p.parseDirectiveDefinition(description))
 		case "extend":
-			if description.text != "" {
+			if hasDescription {
 				p.unexpectedToken(p.prev)
 			}
 			p.parseTypeSystemExtension(&doc)
